@@ -199,7 +199,12 @@ def check_refuse(c):
 
         expect_raise(devs, "id_widths.ctor", mk)
         h = build_header(b)
-        expect_raise(devs, "id_widths.set_entity_ids", h.set_entity_ids, ByteFieldGenerator.from_int(b["idw"], 1), ByteFieldGenerator.from_int(c["dstw"], 1))
+        before = bytes(h.pack())
+        expect_raise(devs, "id_widths.set_entity_ids", h.set_entity_ids, ByteFieldGenerator.from_int(b["idw"], 2), ByteFieldGenerator.from_int(c["dstw"], 3))
+        # a refused update leaves the header what it was
+        eq(devs, "id_widths.pack_after_refused_update", bytes(h.pack()), before)
+        eq(devs, "id_widths.header_len_after_refused_update", h.header_len, len(before))
+        eq(devs, "id_widths.fields_after_refused_update", obs_header(h), want_obs(b))
     else:
         def mk2():
             bb = dict(b)
@@ -213,7 +218,10 @@ def check_refuse(c):
             h.pdu_data_field_len = c["bad"]
             return h.pack()
 
+        before = bytes(h.pack())
         expect_raise(devs, "dlen.setter", setlen)
+        eq(devs, "dlen.pack_after_refused_update", bytes(h.pack()), before)
+        eq(devs, "dlen.packet_len_after_refused_update", h.packet_len, len(before) + b["dlen"])
     return devs
 
 
